@@ -70,10 +70,11 @@ type state struct {
 	ghost  map[string]string
 	defers []*ssa.Defer
 	// ghost arrays live in heap too, prefixed "G!"
+	lockSnap *state // state right after the most recent lock acquisition (guarded state havocked)
 }
 
 func (s *state) clone() *state {
-	n := &state{reach: s.reach, ep: s.ep, alloc: s.alloc}
+	n := &state{reach: s.reach, ep: s.ep, alloc: s.alloc, lockSnap: s.lockSnap}
 	n.regs = make(map[ssa.Value]string, len(s.regs))
 	for k, v := range s.regs {
 		n.regs[k] = v
@@ -745,7 +746,8 @@ func (g *fnGen) typeFacts(st *state, term string, t types.Type) {
 		}
 	case *types.Slice:
 		g.assume(st, And(S("<=", "0", S("s-off", term)), S("<=", "0", S("s-len", term)), S("<=", S("s-len", term), S("s-cap", term)),
-			S("<=", "0", S("s-base", term)), S("<", S("s-base", term), st.alloc), Imp(S("=", S("s-base", term), "0"), S("=", S("s-cap", term), "0"))))
+			S("<=", "0", S("s-base", term)), S("<", S("s-base", term), st.alloc), Imp(S("=", S("s-base", term), "0"), S("=", S("s-cap", term), "0")),
+			S("<=", S("*", fmt.Sprint(max64(1, g.P.sizes.Sizeof(u.Elem()))), S("s-cap", term)), "140737488355328")))
 	case *types.Pointer, *types.Map, *types.Chan:
 		g.assume(st, And(S("<", term, st.alloc)))
 		if _, isPtr := u.(*types.Pointer); !isPtr {
@@ -755,7 +757,7 @@ func (g *fnGen) typeFacts(st *state, term string, t types.Type) {
 		if u.NumMethods() > 0 {
 			g.assume(st, Or(S("=", S("i-tag", term), "0"), S(g.R.implSym(t), S("i-tag", term))))
 		}
-		g.assume(st, S(">=", S("i-tag", term), "0"))
+		g.assume(st, And(S(">=", S("i-tag", term), "0"), S("<", S("i-val", term), st.alloc), Imp(S("=", S("i-tag", term), "0"), S("=", S("i-val", term), "0"))))
 	case *types.Struct:
 		info := g.R.structInfoOf(t)
 		for i, f := range info.fields {
@@ -1377,6 +1379,12 @@ func (g *fnGen) joinStates(sts []*state, tag string) *state {
 		}
 		out.ep = ep
 	}
+	for _, s := range sts {
+		if s.lockSnap != nil {
+			out.lockSnap = s.lockSnap
+			break
+		}
+	}
 	// defers: take the longest list (defers in branches are rare)
 	for _, s := range sts {
 		if len(s.defers) > len(out.defers) {
@@ -1652,4 +1660,11 @@ func (g *fnGen) backEdge(li *loopInfo, st *state, pos token.Pos) {
 			g.oblige(st, "decreases", name, li.header.Instrs[0].Pos(), "", And(S("<=", "0", li.entryDec), S("<", t, li.entryDec)), "loop variant decreases and is bounded: "+c.Src)
 		}
 	}
+}
+
+func max64(a, b int64) int64 {
+	if a > b {
+		return a
+	}
+	return b
 }
